@@ -56,7 +56,7 @@ SETTINGS = {
     "i18n": "[i18n]\n\tlogOutputEncoding = ISO-8859-1\n\tcommitEncoding = UTF-8\n",
     "rewriteref": "[notes]\n\trewriteRef = refs/notes/*\n[notes \"rewrite\"]\n\trebase = true\n\tamend = true\n",
 }
-CONTEXTS = ["root", "subdir", "dash-C", "worktree", "subdir-c", "dash-C-c", "dash-C-C"]
+CONTEXTS = ["root", "subdir", "dash-C", "worktree", "subdir-c", "dash-C-c", "dash-C-C", "gitdir-worktree"]
 
 
 def script(sc, context):
@@ -74,7 +74,7 @@ def script(sc, context):
         sc.w.main_repo = sc.w.repo
         sc.w.repo = wt
         sc.nr.repo = wt
-    elif context in ("subdir", "dash-C", "subdir-c", "dash-C-c", "dash-C-C"):
+    elif context in ("subdir", "dash-C", "subdir-c", "dash-C-c", "dash-C-C", "gitdir-worktree"):
         sc.w.invoke = context
         if context in ("subdir", "subdir-c"):
             sc.blame_ctx = "subdir"     # `git-ai blame` has no -C; outside any repository git blame itself refuses an absolute path
